@@ -28,16 +28,16 @@ import (
 // apiPool is a stateless tx pool for the transactions API (sim.Pool belongs to the importer goroutine).
 type apiPool struct{}
 
-func (apiPool) Get(thor.Bytes32) *tx.Transaction      { return nil }
-func (apiPool) Add(*tx.Transaction) error             { return nil }
-func (apiPool) AddLocal(*tx.Transaction) error        { return nil }
-func (apiPool) StrictlyAdd(*tx.Transaction) error     { return nil }
+func (apiPool) Get(thor.Bytes32) *tx.Transaction       { return nil }
+func (apiPool) Add(*tx.Transaction) error              { return nil }
+func (apiPool) AddLocal(*tx.Transaction) error         { return nil }
+func (apiPool) StrictlyAdd(*tx.Transaction) error      { return nil }
 func (apiPool) Remove(thor.Bytes32, thor.Bytes32) bool { return false }
-func (apiPool) Dump() tx.Transactions                 { return nil }
-func (apiPool) Len() int                              { return 0 }
-func (apiPool) Executables() tx.Transactions          { return nil }
-func (apiPool) Fill(tx.Transactions)                  {}
-func (apiPool) Close()                                {}
+func (apiPool) Dump() tx.Transactions                  { return nil }
+func (apiPool) Len() int                               { return 0 }
+func (apiPool) Executables() tx.Transactions           { return nil }
+func (apiPool) Fill(tx.Transactions)                   {}
+func (apiPool) Close()                                 {}
 func (apiPool) SubscribeTxEvent(chan *txpool.TxEvent) event.Subscription {
 	return event.NewSubscription(func(quit <-chan struct{}) error { <-quit; return nil })
 }
@@ -85,10 +85,10 @@ type apiObs struct {
 }
 
 type jsonBlock struct {
-	Number       uint32         `json:"number"`
-	ID           thor.Bytes32   `json:"id"`
-	ParentID     thor.Bytes32   `json:"parentID"`
-	StateRoot    thor.Bytes32   `json:"stateRoot"`
+	Number       uint32            `json:"number"`
+	ID           thor.Bytes32      `json:"id"`
+	ParentID     thor.Bytes32      `json:"parentID"`
+	StateRoot    thor.Bytes32      `json:"stateRoot"`
 	Transactions []json.RawMessage `json:"transactions"` // ids, or objects when expanded
 }
 
@@ -155,6 +155,11 @@ func (r *reader) apiStep(it int) {
 		st, body := a.do("GET", url, "")
 		e := r.stamp()
 		var jb jsonBlock
+		if st == 500 && body == "not found" && len(r.apiBest) < 400 {
+			// decided after the run: did best move to a LOWER height during the request (blocks.isTrunk quirk)?
+			r.apiBest = append(r.apiBest, apiObs{s: s, e: e, what: "blocks500", body: url})
+			return
+		}
 		if st != 200 || json.Unmarshal([]byte(body), &jb) != nil || jb.ID.IsZero() {
 			r.apiFail("api-5xx:blocks/best", url, st, body, s, e)
 			return
@@ -343,6 +348,17 @@ func revClass(rev string) string {
 func (r *reader) checkAPIBest(tl *timeline) {
 	for _, o := range r.apiBest {
 		cands := tl.candidates(o.s, o.e)
+		if o.what == "blocks500" {
+			sig := "api-5xx:blocks/best"
+			for i := 1; i < len(cands); i++ {
+				if a, b := r.w.facts[cands[i-1]], r.w.facts[cands[i]]; a != nil && b != nil && b.num < a.num {
+					sig = sigIsTrunk
+				}
+			}
+			r.violate(sig, fmt.Sprintf("%s -> 500 not found while best changed %v (handler loads best twice: the block it answers for and, in isTrunk, the chain it looks the number up in)",
+				o.body, shorts(cands)), o.s, o.e, thor.Bytes32{})
+			continue
+		}
 		ok := false
 		var names []string
 		for _, c := range cands {
@@ -413,4 +429,15 @@ func (tl *timeline) admissible(o obsRec) (ok, stale bool) {
 		}
 	}
 	return false, false
+}
+
+// sigIsTrunk: api/blocks.isTrunk returns the "not found" of Chain.GetBlockID as an error (HTTP 500) when the block's
+// number is above the best block's height, instead of "not on trunk".
+const sigIsTrunk = "api-5xx:blocks-istrunk-above-best"
+
+func shorts(ids []thor.Bytes32) (out []string) {
+	for _, id := range ids {
+		out = append(out, short(id))
+	}
+	return
 }
